@@ -238,7 +238,7 @@ pub fn run(ctx: &Ctx) -> Report {
     let stats = par_run(ctx, TAG, units, |_u, rng, st| { for _ in 0..4 { one_system(st, rng); } });
     let mut rep = Report::new(stats,
         "random square sparse systems of order 1..60 of 9 kinds (small-integer low-order systems where exact breakdowns occur, SPD dominant, SPD Gram, nonsymmetric dominant, nonsymmetric general, symmetric indefinite, row-scaled 2^+-20, nearly singular, exactly singular), rhs zero/1e+-6/1e-18/1e+-40/1e-80/O(1), x0 zero/random/1e3*random, tol log-uniform 1e-12..1e-2, budgets {0..4,n,3n+10,20n+50}; all five solver variants on each. Judged: no panic, determinism, zero budget leaves x bit-identical, and whenever Ok(it): it<=max_iter, x finite, true residual (double-double, dense copy) <= tol + 256 (QMR: 16384) drift units u*(it+1)*(||A||_F*max_k||x_k||+||b||)/||b||* (max over iterates by budget replay when needed). Non-trivial: an Ok outcome with it>=1 on n>=2; distinct = distinct (solver,class,entries,tol) hashes");
-    rep.assumptions = vec!["drift allowance 256 units (QMR 16384) fixed; measured worst excess on the unchanged tree is recorded under maxima excess_units:* (2.3 / 58 over 3.6 M outcomes)".into(), "nothing is demanded when the solver answers Err (that half is C09)".into()];
+    rep.assumptions = vec!["drift allowance 256 units (QMR 64 since fix ab4c52c made its success a true-residual test) fixed; measured worst excess on the unchanged tree is recorded under maxima excess_units:* (2.3 / 0.03 over 3.6 M outcomes)".into(), "nothing is demanded when the solver answers Err (that half is C09)".into()];
     rep.min_nontrivial = 300;
     rep
 }
